@@ -3,7 +3,7 @@
 (* shape around its OWN fresh words, so that each input is searchable in     *)
 (* every output.  Serves C03, C12, C06.                                     *)
 EXTENDS MCGen
-OpsV == {"GoNew", "Sentinel", "Errno", "New", "Newf", "NewfW", "PkgNew", "Unimplemented",
+OpsV == {"HostileTags", "Copy", "GoNew", "Sentinel", "Errno", "New", "Newf", "NewfW", "PkgNew", "Unimplemented",
          "AssertionFailedf", "ULeaf", "Wrap", "Wrapf", "WithMessage", "WithMessagef", "WithHintf", "WithDetailf", "UnimplementedErrorf",  "WithStack", "WithHint",
          "WithDetail", "WithSafeDetails", "WithTelemetry", "WithDomain", "WithIssueLink",
          "WithContextTags", "WithAssertionFailure", "Mark", "WithSecondaryError", "CombineErrors",
@@ -27,6 +27,9 @@ Shapes2V == Reg2 \cup Hostile2
 \* constant messages), transferred between knowing processes
 OpsRetain == {"New", "Unimplemented", "WithIssueLink", "WithTelemetry", "WithDomain", "WithContextTags",
               "Handled", "WithSecondaryError", "Hop"}
+\* the same, with two handles on one error annotated differently and then combined
+OpsRetain2 == {"GoNew", "Sentinel", "Copy", "WithTelemetry", "WithSafeDetails", "WithContextTags", "WithStack",
+               "WithSecondaryError", "CombineErrors", "Hop"}
 \* long strings: an unsafe word, then more text than any size limit of a reporting path
 ShapesLong == {<<"$1", "SP", "L_pad", "SP", "$2">>, <<"$1">>}
 \* regular strings only (congruence, retention)
